@@ -102,6 +102,16 @@ def run_solver(repo, kinds, solve_for=('tidal',), nondimensionalize=False, slice
     def call_hook(itp, fn_, args, kwargs, e, fr):
         nm = fn_.node.name if isinstance(fn_, FuncRef) else str(getattr(fn_, 'name', ''))
         base = nm.split('.')[-1]
+        if base in ('cf_solve_upper_y_at_interface', 'cf_top_to_bottom_interface_bc') and isinstance(fn_, FuncRef):
+            names = [a_.arg for a_ in fn_.node.args.args]
+            bound = dict(zip(names, args)); bound.update(kwargs)
+            state.setdefault('iface_calls', []).append((base, bound))
+            return NotImplemented          # recorded; the function itself is interpreted
+        if base == 'cf_redimensionalize_radial_functions' and isinstance(fn_, FuncRef):
+            names = [a_.arg for a_ in fn_.node.args.args]
+            bound = dict(zip(names, args)); bound.update(kwargs)
+            state.setdefault('redim_calls', []).append(bound)
+            return NotImplemented
         if base == 'cf_build_solver':
             return make_solver(args)
         if base == 'cf_find_starting_conditions':
@@ -173,8 +183,9 @@ def run_solver(repo, kinds, solve_for=('tidal',), nondimensionalize=False, slice
         r.ret = it.call(ms, f, [], kw)
     except RaiseSignal as ex:
         r.raised = ex; r.ret = None
-    r.oob = sorted({(name, ext, k, kind_, getattr(node, 'lineno', None)) for name, ext, k, kind_, node in I.OOB_LOG})
+    r.oob = sorted({(name, ext, k, kind_, getattr(node, 'lineno', None) or 0) for name, ext, k, kind_, node in I.OOB_LOG}, key=lambda t_: tuple(str(x) for x in t_))
     so = state['solution_obj']
     r.solution_obj = so
+    r.iface_calls = state.get('iface_calls', []); r.redim_calls = state.get('redim_calls', [])
     r.final_arrays = {nm: [arrs[nm].store.get(i) for i in range(total)] for nm in arrs}
     return r
